@@ -339,6 +339,10 @@ def file_check(case):
                 raw[ch, sl] = 0
             else:
                 raw[ch, sl] += 150e-6 * rng.standard_normal(sl.stop - sl.start)
+    # a moderately noisy channel (60 uV rms of broadband noise, far above the AP-band criterion, below what an LF-band criterion would ask for) in most batches
+    for bi in range(0, nb // 2 + 2):
+        sl = slice(starts[bi], starts[bi] + int(bd * FS))
+        raw[150, sl] += 60e-6 * rng.standard_normal(sl.stop - sl.start)
     for ch, parts in mixed.items():
         bi = 0
         for lab, nbat in parts:
@@ -396,7 +400,7 @@ def file_check(case):
         if got.shape == (nc,) and clear[250] and got[250] != 0 and variant != 4:
             v.append(("detect-file:plan", "channel 250 clean in 3, dead in 2 and noisy in 2 of 7 batches is labelled %r (mode is 0)" % got[250]))
         # ... and the channels nothing was done to stay clear (away from the probe ends, see the known finding for channel 0)
-        touched = set(plan) | set(plan_end) | set(mixed)
+        touched = set(plan) | set(plan_end) | set(mixed) | {150}
         quiet = np.array([c for c in range(5, nc - 5) if c not in touched and (variant != 3 or c != 100)])
         if got.shape == (nc,) and np.any(got[quiet] != 0):
             w = quiet[np.flatnonzero(got[quiet] != 0)]
